@@ -4,7 +4,8 @@ VARIABLE l
 IsEvent(e) == l <= NRec /\ Rec[l].ev = e /\ l' = l + 1
 TInit == LInit /\ l = 1
 ModeOf(sc) == IF sc.family \in {"heal", "clean", "tiny", "lossy"} THEN "heal" ELSE IF sc.family = "blackhole" THEN "dead" ELSE "free"
-T_Reset == IsEvent("reset") /\ LET sc == Rec[l].sc IN Set(LFresh(ModeOf(sc), Min2(sc.c.idle_ms, sc.s.idle_ms) * 1000))
+HealOf(sc) == IF "heal_at_us" \in DOMAIN sc.net THEN sc.net.heal_at_us ELSE 0
+T_Reset == IsEvent("reset") /\ LET sc == Rec[l].sc IN Set(LFresh(ModeOf(sc), Min2(sc.c.idle_ms, sc.s.idle_ms) * 1000, HealOf(sc)))
 T_RxP == IsEvent("rxp") /\ Rx(Rec[l].ep, Rec[l].t)
 T_TxP == IsEvent("txp") /\ (IF Rec[l].el THEN TxEliciting(Rec[l].ep, Rec[l].t) ELSE UNCHANGED lvars)
 T_Metrics == IsEvent("metrics") /\ LET r == Rec[l] IN MetricsSeen(r.ep, r.srtt, r.rttvar, r.mad, r.pto_count)
